@@ -724,7 +724,7 @@ def match_known(known, name, failure=None):
             cond = k.get('only_if')
             if cond and failure is not None:
                 try:
-                    if not eval(cond, {'__builtins__': {}}, dict(failure)):
+                    if not eval(cond, {'__builtins__': {'abs': abs, 'min': min, 'max': max, 'len': len}}, dict(failure)):
                         continue
                 except Exception:
                     continue
